@@ -113,10 +113,13 @@ func runDynamic(t Tools, dir string, seed uint64, tier string, out *vl.Out) dynS
 		}
 		c.res[i] = runOne(t, c.o, c.idl, cwd, outArg, gmp[i%len(gmp)])
 	})
-	// wave 2: once more into the directory run 0 has already filled
+	// wave 2: once more, into a directory that already holds the output of a previous run (a copy of
+	// run 0's, so that run 0's own files stay available for attribution)
 	pool(len(combos), func(k int) {
 		c := combos[k]
-		c.res[nRuns] = runOne(t, c.o, c.idl, filepath.Join(c.dir, "r0"), "out", gmp[2])
+		cwd := filepath.Join(c.dir, "again")
+		copyTree(filepath.Join(c.dir, "r0", "out"), filepath.Join(cwd, "out"))
+		c.res[nRuns] = runOne(t, c.o, c.idl, cwd, "out", gmp[2])
 	})
 	st.Executions = len(combos) * (nRuns + 1)
 	fmt.Fprintf(os.Stderr, "c07: %d executions of thriftgo in %.1fs\n", st.Executions, time.Since(t00).Seconds())
@@ -251,4 +254,21 @@ func cmdReplay(file, dir string, t Tools) {
 	}
 	js, _ := json.Marshal(fails)
 	fmt.Println(string(js))
+}
+
+func copyTree(src, dst string) {
+	filepath.Walk(src, func(p string, info os.FileInfo, err error) error {
+		if err != nil {
+			return nil
+		}
+		rel, _ := filepath.Rel(src, p)
+		if info.IsDir() {
+			os.MkdirAll(filepath.Join(dst, rel), 0o755)
+			return nil
+		}
+		if b, err := os.ReadFile(p); err == nil {
+			os.WriteFile(filepath.Join(dst, rel), append(b, []byte("\n// stale content of a previous run\n")...), 0o644)
+		}
+		return nil
+	})
 }
